@@ -528,6 +528,9 @@ def run(run):
                 run.case(h64((front, framing, data)), True,
                          sample={'front': front, 'framing': framing, 'class': 'limit-writes', 'first_pdu': pdu[:8].hex(), 'total_bytes': len(data),
                                  'verdict': 'survived, store justified, probe answered' if ok else 'differs'}, sample_class=(front, 'limit-writes'))
+    if run.shard in (None, 0):
+        from . import loopback
+        loopback.udp_hostile(run, r, run.scale(4, 60), gen_layout, probe_reads)
     if run.thorough and run.shard in (None, 0):
         from . import loopback
         loopback.hostile(run, r, uniq, 120, gen_layout, hostile_stream, split, [c for c in CLASSES if c != 'blob'], unjustified_changes, probe_reads)
